@@ -144,11 +144,20 @@ type Options struct {
 	Trace       bool
 }
 
+var nextStart []func()
+
+// OnNextExecStart registers fn to run right before the next controlled execution starts.
+func OnNextExecStart(fn func()) { nextStart = append(nextStart, fn) }
+
 // RunOnce executes body as managed thread 0 following prefix, then default picks.
 func RunOnce(prefix []int, o Options, body func()) *Exec {
 	if E != nil {
 		panic("sched: nested execution")
 	}
+	for _, fn := range nextStart {
+		fn()
+	}
+	nextStart = nil
 	if o.MaxSteps == 0 {
 		o.MaxSteps = 50000
 	}
